@@ -31,7 +31,33 @@ def say(*a):
 
 # ------------------------------------------------------------------ proof obligations
 
-def scan_forbidden():
+def dep_closure(prop):
+    """source files Properties/<prop>.v transitively depends on (from coq_makefile's .Makefile.d)"""
+    dfile = os.path.join(COQ, ".Makefile.d")
+    deps = {}
+    if os.path.exists(dfile):
+        txt = open(dfile).read().replace("\\\n", " ")
+        for line in txt.split("\n"):
+            if ":" not in line:
+                continue
+            lhs, rhs = line.split(":", 1)
+            tg = [t for t in lhs.split() if t.endswith(".vo")]
+            ds = [d[:-1] for d in rhs.split() if d.endswith(".vo") and not d.startswith("/")]
+            for t in tg:
+                deps.setdefault(t[:-1], set()).update(ds)
+    start = "Properties/%s.v" % prop
+    seen = set()
+    todo = [start]
+    while todo:
+        f = todo.pop()
+        if f in seen:
+            continue
+        seen.add(f)
+        todo += list(deps.get(f, ()))
+    return seen
+
+
+def scan_forbidden(only=None):
     """grep the development for declarations that would introduce axioms or switch checks off"""
     bad = []
     pat = re.compile(r"^\s*(Admitted|Axiom|Axioms|Parameter|Parameters|Conjecture|Conjectures|Admit Obligations)\b|\badmit\b|Unset\s+Guard\s+Checking|bypass_check|Unset\s+Positivity|Unset\s+Universe\s+Checking|-type-in-type|-impredicative-set")
@@ -40,6 +66,8 @@ def scan_forbidden():
             if not f.endswith(".v"):
                 continue
             p = os.path.join(dp, f)
+            if only is not None and os.path.relpath(p, COQ) not in only:
+                continue
             depth = 0
             for i, line in enumerate(open(p, encoding="utf-8", errors="replace"), 1):
                 # strip comments (nesting aware, line-local approximation is enough: track depth)
@@ -63,6 +91,8 @@ def scan_forbidden():
             if not f.endswith(".v"):
                 continue
             p = os.path.join(dp, f)
+            if only is not None and os.path.relpath(p, COQ) not in only:
+                continue
             sec = 0
             for i, line in enumerate(open(p, encoding="utf-8", errors="replace"), 1):
                 s = line.strip()
@@ -115,7 +145,9 @@ def proof_obligations(prop):
     res["discharged"] = closed if not extra else 0
     if closed + (1 if axioms else 0) < len(thms) and not extra and closed != len(thms):
         res["problems"].append("Print Assumptions output not understood (%d closed of %d)" % (closed, len(thms)))
-    bad = scan_forbidden()
+    closure = dep_closure(prop)
+    res["files_in_closure"] = len(closure)
+    bad = scan_forbidden(closure if len(closure) > 1 else None)
     if bad:
         res["problems"].append("forbidden declarations: " + "; ".join(bad[:10]))
         res["discharged"] = 0
